@@ -77,7 +77,7 @@ func genJobs(seed uint64, thorough bool) []job {
 	nsamp := 40
 	if thorough {
 		maxN = 20000
-		nsamp = 600
+		nsamp = 300
 	}
 	for _, c := range []int{2, 3, 4, 5, 6, 7, 8, 12, 16} {
 		for k := 1; k <= 9; k++ {
@@ -128,7 +128,7 @@ func genJobs(seed uint64, thorough bool) []job {
 	// 4. duplicated tails and other near-miss pairs
 	npair := 300
 	if thorough {
-		npair = 4000
+		npair = 3000
 	}
 	for i := 0; i < npair; i++ {
 		n := r.Range(1, 48)
@@ -198,7 +198,7 @@ func genJobs(seed uint64, thorough bool) []job {
 	// 5. branches: every position for small counts, sampled for larger ones
 	allUpTo := 64
 	if thorough {
-		allUpTo = 300
+		allUpTo = 200
 	}
 	for n := 1; n <= allUpTo; n++ {
 		pos := seqInts(n + 1) // 1..n+1
@@ -232,7 +232,7 @@ func genJobs(seed uint64, thorough bool) []job {
 	// 6. multi-layer: mixed main / para transaction lists
 	nmulti := 120
 	if thorough {
-		nmulti = 1500
+		nmulti = 1000
 	}
 	for i := 0; i < nmulti; i++ {
 		var txs []txd
@@ -813,7 +813,32 @@ func main() {
 	defer o.Close()
 	answers := spawnChildren(opts, widths, only)
 	js := genJobs(opts.Seed, opts.Thorough())
+	// emission order: spread the expensive jobs (many leaves x every worker count) evenly over
+	// the cheap ones so that the evaluation shards are balanced
+	var heavy, light []int
 	for i, j := range js {
+		if len(j.Leaves) > 1500 || len(j.Txs) > 600 {
+			heavy = append(heavy, i)
+		} else {
+			light = append(light, i)
+		}
+	}
+	var order []int
+	per := len(light)
+	if len(heavy) > 0 {
+		per = len(light)/len(heavy) + 1
+	}
+	hi := 0
+	for k, i := range light {
+		order = append(order, i)
+		if (k+1)%per == 0 && hi < len(heavy) {
+			order = append(order, heavy[hi])
+			hi++
+		}
+	}
+	order = append(order, heavy[hi:]...)
+	for _, i := range order {
+		j := js[i]
 		if only >= 0 && i != only {
 			continue
 		}
